@@ -451,7 +451,8 @@ def r18_3(ctx, repo):
                        and len(s.targets) == 1 and U(s.targets[0]) == MN
                        and isinstance(s.value, (ast.ListComp, ast.Call))
                        and any(isinstance(g, ast.comprehension)
-                               and MN in U(g.iter)
+                               and (MN in U(g.iter)
+                                    or '.get_parameter_names(' in U(g.iter))
                                for g in ast.walk(s.value))]
             done = False
             for rb in rebinds:
